@@ -710,7 +710,7 @@ Proof.
   set (pre := match e_type (i_ex i), r_type (i_req i) with
               | Some et, Some _ => match ty_ck et with Some k => drop_constraint (i_d i) k | None => ret end
               | _, _ => ret end).
-  set (post := match ck_of (r_type (i_req i)) with Some k => add_constraint (i_d i) (e_name (i_ex i)) k | None => ret end).
+  set (post := match ck_of (r_type (i_req i)) with Some k => add_constraint (i_d i) (match r_name (i_req i) with Some n => n | None => e_name (i_ex i) end) k | None => ret end).
   assert (Hpre : exists ps, forallb noop ps = true /\ pre = (ps, None)).
   { unfold pre, drop_constraint, ret. destruct (e_type (i_ex i)) as [et|], (r_type (i_req i)) as [rt|];
       try (exists []; split; reflexivity).
@@ -767,8 +767,8 @@ Proof.
   eapply effect_all_inner; eauto.
 Qed.
 
-(* ---- addressing at the toimpl level: DROP CONSTRAINT names no column; ADD CONSTRAINT names the OLD column
-   name and comes after the impl-level call, i.e. after a rename *)
+(* ---- addressing at the toimpl level: DROP CONSTRAINT names no column; ADD CONSTRAINT comes after the
+   impl-level call, i.e. after a rename, and names the NEW column name *)
 Definition pre_stmts (i:c13_in) : list stmt :=
   match e_type (i_ex i), r_type (i_req i) with
   | Some et, Some _ => match ty_ck et with
@@ -778,7 +778,7 @@ Definition pre_stmts (i:c13_in) : list stmt :=
   end.
 Definition post_stmts (i:c13_in) : list stmt :=
   match ck_of (r_type (i_req i)) with
-  | Some k => match i_d i with Dsqlite => [] | _ => [AddConstraint (e_name (i_ex i)) k] end
+  | Some k => match i_d i with Dsqlite => [] | _ => [AddConstraint (match r_name (i_req i) with Some n => n | None => e_name (i_ex i) end) k] end
   | None => []
   end.
 
@@ -797,20 +797,18 @@ Proof.
                   | _, _ => [] end, None)).
   { destruct (e_type (i_ex i)) as [et|], (r_type (i_req i)) as [rt|]; try reflexivity.
     destruct (ty_ck et); [|reflexivity]. destruct (i_d i); reflexivity. }
-  assert (Hpost : match ck_of (r_type (i_req i)) with Some k => add_constraint (i_d i) (e_name (i_ex i)) k | None => ret end
+  assert (Hpost : match ck_of (r_type (i_req i)) with Some k => add_constraint (i_d i) (match r_name (i_req i) with Some n => n | None => e_name (i_ex i) end) k | None => ret end
                = (match ck_of (r_type (i_req i)) with
-                  | Some k => match i_d i with Dsqlite => [] | _ => [AddConstraint (e_name (i_ex i)) k] end
+                  | Some k => match i_d i with Dsqlite => [] | _ => [AddConstraint (match r_name (i_req i) with Some n => n | None => e_name (i_ex i) end) k] end
                   | None => [] end, None)).
   { destruct (ck_of (r_type (i_req i))); [|reflexivity]. destruct (i_d i); reflexivity. }
   rewrite Hpre, Hpost.
   destruct (alter_column (i_d i) (i_req i) (i_ex i)) as [ss [e|]]; cbn; rewrite ?app_nil_r, <- ?app_assoc; reflexivity.
 Qed.
 
-Lemma addr_model i :
-  check_after_rename i = false \/ snd (model_C13 i) <> None ->
-  addr_ok (e_name (i_ex i)) (fst (model_C13 i)) = true.
+Lemma addr_model i : addr_ok (e_name (i_ex i)) (fst (model_C13 i)) = true.
 Proof.
-  intros Hc. rewrite model_shape_x in *. cbn [fst snd] in *.
+  rewrite model_shape_x in *. cbn [fst snd] in *.
   destruct (addr_inner i) as [Hok Hfin].
   assert (Hpre : addr_ok (e_name (i_ex i)) (pre_stmts i) = true /\
                  fold_left name_after (pre_stmts i) (e_name (i_ex i)) = e_name (i_ex i)).
@@ -819,23 +817,19 @@ Proof.
   destruct Hpre as [Hp1 Hp2].
   rewrite addr_ok_app, Hp1, Hp2, addr_ok_app, Hok. cbn [andb].
   destruct (snd (inner_C13 i)) as [e|] eqn:Hs; [reflexivity|].
-  rewrite (Hfin eq_refl). destruct Hc as [Hc|Hc]; [|congruence].
-  unfold post_stmts. unfold check_after_rename in Hc.
+  rewrite (Hfin eq_refl). unfold post_stmts.
   destruct (ck_of (r_type (i_req i))) as [k|]; [|reflexivity].
-  destruct (r_name (i_req i)) as [n|].
-  - destruct (i_d i); try reflexivity; cbn [addr_ok addr andb]; rewrite andb_true_r in *;
-      apply negb_false_iff in Hc; rewrite N.eqb_sym; rewrite Hc; reflexivity.
-  - destruct (i_d i); try reflexivity; cbn [addr_ok addr andb]; rewrite N.eqb_refl; reflexivity.
+  destruct (i_d i); try reflexivity; cbn [addr_ok addr andb]; rewrite N.eqb_refl; reflexivity.
 Qed.
 
 Theorem effect_all i ss st0 :
   inclass_C13 i = true -> model_C13 i = (ss, None) -> matches (i_ex i) st0 ->
   stated_enough ss (i_req i) (i_ex i) st0 -> run ss st0 = Some (override st0 (i_req i)).
 Proof.
-  unfold inclass_C13. rewrite andb_true_iff, negb_true_iff. intros [Ha Hc] H Hm He.
+  unfold inclass_C13. intros Ha H Hm He.
   rewrite run_spec, (matches_name0 _ _ Hm).
   assert (Hf : fst (model_C13 i) = ss) by (rewrite H; reflexivity).
-  rewrite <- Hf at 1. rewrite (addr_model i (or_introl Hc)). f_equal. eapply effect_total; eauto.
+  rewrite <- Hf at 1. rewrite (addr_model i). f_equal. eapply effect_total; eauto.
 Qed.
 
 Theorem no_invention_all i ss e : model_C13 i = (ss, e) -> no_invention (i_req i) (i_ex i) ss.
@@ -862,7 +856,7 @@ Proof.
   destruct (inner_C13 i) as [ss' e'] eqn:Hi. cbn [snd] in Hs. subst e'.
   destruct (raises_instead_all_inner i ss' e Hi) as [Hu Hp]. split; [exact Hu|].
   intros st0 Hm He. exists (run_total ss st0). split.
-  - rewrite run_spec, (matches_name0 _ _ Hm). rewrite <- Hf at 1. rewrite (addr_model i (or_intror Hsm)). reflexivity.
+  - rewrite run_spec, (matches_name0 _ _ Hm). rewrite <- Hf at 1. rewrite (addr_model i). reflexivity.
   - intros a. rewrite <- Hf in He |- *. rewrite run_model, Hi. cbn [fst].
     apply Hp; auto. apply stated_enough_model in He. rewrite Hi in He. exact He.
 Qed.
@@ -912,29 +906,6 @@ Proof.
   specialize (H st_plain matches_plain).
   assert (He : stated_enough [] req_autoinc_only ex_nothing st_plain) by (intros s a []).
   specialize (H He). discriminate H.
-Qed.
-
-(* FINDING 2: the CHECK of the new type is added after the rename but names the old column *)
-Definition req_rename_enum : request := mkReq (Some (mkTy 13 false (Some 51%N))) None TFalse (Some 2%N) TFalse None None.
-
-Theorem check_after_rename_refuted d sch :
-  d <> Dsqlite ->
-  inclass_C13 (mkIn d sch req_rename_enum ex_nothing) = false /\
-  snd (model_C13 (mkIn d sch req_rename_enum ex_nothing)) = None /\
-  run (fst (model_C13 (mkIn d sch req_rename_enum ex_nothing))) st_plain = None /\
-  ~ C13_holds (mkIn d sch req_rename_enum ex_nothing) (tagged_C13 (mkIn d sch req_rename_enum ex_nothing)).
-Proof.
-  intros Hd.
-  assert (R : run (fst (model_C13 (mkIn d sch req_rename_enum ex_nothing))) st_plain = None)
-    by (destruct d; try (exfalso; apply Hd; reflexivity); reflexivity).
-  assert (E : snd (model_C13 (mkIn d sch req_rename_enum ex_nothing)) = None)
-    by (destruct d; reflexivity).
-  split; [destruct d; try (exfalso; apply Hd; reflexivity); reflexivity|]. split; [exact E|]. split; [exact R|].
-  unfold tagged_C13, C13_holds. rewrite E, map_snd_tag. intros [_ [_ [_ H]]].
-  specialize (H st_plain matches_plain).
-  assert (He : stated_enough (fst (model_C13 (mkIn d sch req_rename_enum ex_nothing))) req_rename_enum ex_nothing st_plain).
-  { intros s a _ Ha Hr. destruct a; cbn in Hr; try discriminate Hr; right; reflexivity. }
-  specialize (H He). rewrite R in H. discriminate H.
 Qed.
 
 Theorem stated_enough_exact i st0 :
